@@ -21,7 +21,11 @@ type ParserData struct {
 		breakIndex    int
 	}
 	loopLayer int // 当前loop层数
-	codeStack []struct {
+	// 解析时记录当前已打开、尚未关闭的块(block.push / fstr.block.push)，
+	// 以便 break/continue 跳出循环体内的 if 或模板块时补上对应的 pop
+	openBlocks     []CodeType
+	loopOpenBlocks []int // 每层循环开始时 openBlocks 的长度
+	codeStack      []struct {
 		code    []ByteCode
 		index   int
 		textPos int
@@ -42,6 +46,7 @@ type BufferSpan struct {
 
 func (e *ParserData) LoopBegin() {
 	e.loopLayer += 1
+	e.loopOpenBlocks = append(e.loopOpenBlocks, len(e.openBlocks))
 	e.loopInfo = append(e.loopInfo, struct {
 		continueIndex int
 		breakIndex    int
@@ -50,6 +55,9 @@ func (e *ParserData) LoopBegin() {
 
 func (e *ParserData) LoopEnd() {
 	e.loopLayer -= 1
+	if n := len(e.loopOpenBlocks); n > 0 {
+		e.loopOpenBlocks = e.loopOpenBlocks[:n-1]
+	}
 	info := e.loopInfo[len(e.loopInfo)-1]
 	e.continueStack = e.continueStack[:info.continueIndex]
 	e.breakStack = e.breakStack[:info.breakIndex]
@@ -91,7 +99,31 @@ func (e *ParserData) AddOp(operator CodeType) {
 	if operator == typeJne || operator == typeJmp || operator == typeJe || operator == typeJeDup {
 		val = IntType(0)
 	}
+	switch operator {
+	case typeBlockPush, typeFStringBlockPush:
+		e.openBlocks = append(e.openBlocks, operator)
+	case typeBlockPop, typeFStringBlockPop:
+		if n := len(e.openBlocks); n > 0 {
+			e.openBlocks = e.openBlocks[:n-1]
+		}
+	}
 	e.WriteCode(operator, val)
+}
+
+// closeBlocksInLoop 在 break/continue 的跳转之前，关闭当前循环体内已打开的块，
+// 否则每次迭代都会泄漏一层块嵌套
+func (e *ParserData) closeBlocksInLoop() {
+	if len(e.loopOpenBlocks) == 0 {
+		return
+	}
+	base := e.loopOpenBlocks[len(e.loopOpenBlocks)-1]
+	for i := len(e.openBlocks) - 1; i >= base; i-- {
+		if e.openBlocks[i] == typeFStringBlockPush {
+			e.WriteCode(typeFStringBlockPop, nil)
+		} else {
+			e.WriteCode(typeBlockPop, nil)
+		}
+	}
 }
 
 func (e *ParserData) AddLoadName(value string) {
@@ -182,6 +214,7 @@ func (p *ParserData) ContinuePush() error {
 		if p.continueStack == nil {
 			p.continueStack = []IntType{}
 		}
+		p.closeBlocksInLoop()
 		p.AddOp(typeJmp)
 		p.continueStack = append(p.continueStack, IntType(p.codeIndex)-1)
 	} else {
@@ -216,6 +249,7 @@ func (p *ParserData) BreakPush() error {
 		if p.breakStack == nil {
 			p.breakStack = []IntType{}
 		}
+		p.closeBlocksInLoop()
 		p.AddOp(typeJmp)
 		p.breakStack = append(p.breakStack, IntType(p.codeIndex)-1)
 		return nil
